@@ -17,7 +17,7 @@ use std::sync::{Arc, Condvar, Mutex};
 use std::time::Duration;
 use tokio::io::{AsyncRead, AsyncWrite, AsyncWriteExt};
 
-pub const RULE: &str = "exit cause {clean Close, abrupt loss, text frame, unmasked/garbage WebSocket frame, malformed REPE frame (bad magic / trailing bytes), inline handler panic, connect-callback panic (first / second hook), embedder cancellation, drain-deadline abort, failed handshake (wrong path / non-HTTP bytes)} x phase {idle, inline handler running, off-reader handler parked, outbound queue non-empty (client not reading), reader parked handing a response to the full outbound queue} x 1..32 concurrent connections x entry point {serve_listener accept loop over TCP, serve_connection over an adopted duplex stream, serve_connection_with_cancel, serve_listener_with_graceful_drain}; with a PeerRegistry and an alias attached in a connect hook; oracle per accepted connection: the disconnect callback count is exactly 1 once the connection ended (0 for failed handshakes, and it never becomes 2), the peer and its alias resolve from inside connect hooks (after the insert), from inside handlers and just before the exit trigger, and no longer resolve afterwards, the two notifies queued by the connect callbacks are the first frames the client sees, in order, before the response to a request the client sent first, and every parked off-reader handler observes cancellation within the watchdog; after an embedder cancellation with an unread backlog the client keeps not reading until the hooks and the registry were checked; (cancel-early) cancellation 0..3000 us after serve_connection_with_cancel started (0 = token already cancelled): connect and disconnect callbacks each ran exactly once for the same peer, registry empty; (bare-server) a server with no disconnect callback and no registry: a parked off-reader handler still observes cancellation when the connection ends; (shared-registry) two servers feeding one PeerRegistry: distinct ids, each peer and alias present until its own disconnect; non-trivial = exit cause != clean close, or phase != idle; distinct = case hash";
+pub const RULE: &str = "exit cause {clean Close, abrupt loss, text frame, unmasked/garbage WebSocket frame, malformed REPE frame (bad magic / trailing bytes), inline handler panic, connect-callback panic (first / second hook), embedder cancellation, drain-deadline abort, failed handshake (wrong path / non-HTTP bytes)} x phase {idle, inline handler running, off-reader handler parked, outbound queue non-empty (client not reading), reader parked handing a response to the full outbound queue} x 1..32 concurrent connections x entry point {serve_listener accept loop over TCP, serve_connection over an adopted duplex stream, serve_connection_with_cancel, serve_listener_with_graceful_drain}; with a PeerRegistry and an alias attached in a connect hook; oracle per accepted connection: the disconnect callback count is exactly 1 once the connection ended (0 for failed handshakes, and it never becomes 2), the peer and its alias resolve from inside connect hooks (after the insert), from inside handlers and just before the exit trigger, and no longer resolve afterwards, the two notifies queued by the connect callbacks are the first frames the client sees, in order, before the response to a request the client sent first, and every parked off-reader handler observes cancellation within the watchdog; after an embedder cancellation with an unread backlog the client keeps not reading until the hooks and the registry were checked; (cancel-early) cancellation 0..3000 us after serve_connection_with_cancel started (0 = token already cancelled): connect and disconnect callbacks each ran exactly once for the same peer, registry empty; (bare-server) a server with no disconnect callback and no registry: a parked off-reader handler still observes cancellation when the connection ends; (half-dead) writes of the server to a connection fail while its reads still work: the peer stays resolvable until the disconnect callbacks run; (shared-registry) two servers feeding one PeerRegistry: distinct ids, each peer and alias present until its own disconnect; non-trivial = exit cause != clean close, or phase != idle; distinct = case hash";
 
 #[derive(Debug, Clone, Copy, Serialize, Deserialize, Hash, PartialEq, Eq)]
 pub enum Cause {
@@ -72,6 +72,7 @@ struct Env {
     inline_started: Mutex<HashSet<u64>>,
     off_started: Mutex<HashSet<u64>>,
     off_cancel_seen: Mutex<HashSet<u64>>,
+    inline_cancel_seen: Mutex<HashSet<u64>>,
     sig_cv: Condvar,
     gates: Mutex<HashSet<u64>>,
     gate_cv: Condvar,
@@ -157,7 +158,16 @@ fn build_server(env: Arc<Env>, peers: PeerRegistry) -> WebSocketServer {
             }
             e1.inline_started.lock().unwrap().insert(id);
             e1.sig_cv.notify_all();
-            e1.park(id, Duration::from_secs(20), || false);
+            // an inline handler can watch the same cancellation signal as an off-reader one
+            let mut seen = false;
+            e1.park(id, Duration::from_secs(20), || {
+                seen = ctx.is_cancelled();
+                seen
+            });
+            if seen || ctx.is_cancelled() {
+                e1.inline_cancel_seen.lock().unwrap().insert(id);
+                e1.sig_cv.notify_all();
+            }
             Ok(json!("inline done"))
         })
         .with_json_ctx_blocking("/off_gate", move |ctx: &CallContext, _v: Value| {
@@ -338,7 +348,19 @@ where
         }
         Cause::ConnectPanicFirst | Cause::ConnectPanicSecond => unreachable!("handled by check_connect_panic"),
     }
-    // an inline handler holds the reader; let it return so the reader can notice the exit
+    // an inline handler holds the reader; after an embedder cancellation it is told
+    // through its context, like any handler that is still running when the connection ends
+    if sc.phase == Phase::InlineRunning && sc.cause == Cause::EmbedderCancel {
+        let (e, i) = (env.clone(), id);
+        let ok = tokio::task::spawn_blocking(move || e.wait_set(&e.inline_cancel_seen, i, watchdog())).await.unwrap();
+        ensure!(
+            ok,
+            "handler-not-cancelled",
+            "[{tag}] the inline handler of peer {id} did not observe cancellation within {:?} of the embedder's cancellation",
+            watchdog()
+        );
+    }
+    // otherwise let it return so the reader can notice the exit
     if sc.phase == Phase::InlineRunning {
         env.release(id);
     }
@@ -746,6 +768,74 @@ pub fn check_bare_server(c: &BareCase) -> CheckResult {
     Ok(CaseInfo::new(true).class(format!("bare:{:?}", c.cause)))
 }
 
+// ------------------------------------- the sending direction dies before the reader
+
+/// The server's writes to a connection start failing while its reads still work (the
+/// connection has not ended yet: no disconnect callback has run). A push to the peer
+/// fails; the peer and its alias must nevertheless stay resolvable until the
+/// disconnect callbacks run, and be gone afterwards.
+pub fn check_half_dead(_unit: &bool) -> CheckResult {
+    use std::sync::atomic::AtomicBool;
+    let env = Arc::new(Env::default());
+    let peers = PeerRegistry::new();
+    let shared = build_server(env.clone(), peers.clone()).into_shared();
+    let dead = Arc::new(AtomicBool::new(false));
+    let (env2, peers2, dead2) = (env.clone(), peers.clone(), dead.clone());
+    block_on(async move {
+        let (client_half, server_half) = tokio::io::duplex(1 << 16);
+        let ws = shared
+            .adopt_upgraded(crate::peers::dws::HalfDead {
+                inner: server_half,
+                writes_fail: dead2.clone(),
+            })
+            .await;
+        let sh = shared.clone();
+        let server_done = tokio::spawn(async move { sh.serve_connection(ws).await });
+        let cws = WebSocketStream::from_raw_socket(client_half, Role::Client, None).await;
+        let mut io = WsIo::new(cws);
+        io.send(&frame_with(1, 0, b"/ping", 1, b"null", 2, 0)).await.map_err(|e| Fail::new("harness-send", e.to_string()))?;
+        let mut id = None;
+        for _ in 0..3 {
+            match tokio::time::timeout(watchdog(), io.recv()).await {
+                Ok(Ok(Some(f))) => {
+                    if f.path() == "/hello1" {
+                        id = serde_json::from_slice::<Value>(&f.body).ok().and_then(|v| v.get("peer").and_then(Value::as_u64));
+                    }
+                }
+                _ => return Err(Fail::new("connect-frames-missing", "the connect notifies and the first response did not arrive")),
+            }
+        }
+        let id = id.ok_or_else(|| Fail::new("harness-peer-id", "no peer id in /hello1"))?;
+        ensure!(present(&peers2, id), "peer-missing-while-connected", "peer {id} does not resolve on a healthy connection");
+        // the sending direction dies; a push makes the server notice
+        dead2.store(true, std::sync::atomic::Ordering::SeqCst);
+        if let Some(p) = peers2.get(PeerId(id)) {
+            let _ = p.send_notify("/after", NotifyBody::Raw(vec![1, 2, 3], BodyFormat::RawBinary));
+        }
+        tokio::time::sleep(Duration::from_millis(60)).await;
+        let ended = env2.disconnects.lock().unwrap().get(&id).copied().unwrap_or(0) > 0;
+        ensure!(
+            ended || present(&peers2, id),
+            "peer-missing-while-connected",
+            "peer {id} (get: {}, alias: {}) stopped resolving after its sending direction failed although its disconnect callbacks have not run",
+            peers2.get(PeerId(id)).is_some(),
+            peers2.get_by(alias_of(id).as_str()).is_some()
+        );
+        // the client goes away: now the connection ends
+        drop(io);
+        let (e, i) = (env2.clone(), id);
+        let n = tokio::task::spawn_blocking(move || e.wait_disconnect(i, watchdog())).await.unwrap();
+        ensure!(n == 1, if n == 0 { "disconnect-hook-missing" } else { "disconnect-hook-repeated" }, "the disconnect callback ran {n} times for peer {id}");
+        ensure!(
+            peers2.get(PeerId(id)).is_none() && peers2.get_by(alias_of(id).as_str()).is_none(),
+            "peer-present-after-disconnect",
+            "peer {id} still resolves after its disconnect callbacks ran"
+        );
+        let _ = tokio::time::timeout(watchdog(), server_done).await;
+        Ok(CaseInfo::new(true).class(if ended { "connection-ended-with-the-write-failure" } else { "half-dead-window-observed" }))
+    })
+}
+
 // ----------------------------------------- two servers feeding one peer registry
 
 /// One `PeerRegistry` attached to two servers: every connection's peer (and alias) is
@@ -1016,6 +1106,7 @@ pub fn run(ctx: &Ctx, rep: &Report) {
         .collect();
     run_enum(ctx, rep, "bare-server", &bare, true, &check_bare_server);
     run_enum(ctx, rep, "shared-registry", &[true, false], true, &check_shared_registry);
+    run_enum(ctx, rep, "half-dead", &[true], true, &check_half_dead);
     let early: Vec<EarlyCancel> = [0u16, 0, 1, 5, 20, 50, 100, 200, 400, 800, 1500, 3000].into_iter().map(|delay_us| EarlyCancel { delay_us }).collect();
     run_enum(ctx, rep, "cancel-early", &early, false, &check_cancel_early);
     run_prop(ctx, rep, "cancel-early", ctx.tier.pick(60, 5_000), &|| (0u16..2000).prop_map(|delay_us| EarlyCancel { delay_us }).boxed(), &check_cancel_early);
@@ -1042,6 +1133,7 @@ pub fn replay(sub: &str, case: &serde_json::Value) -> Result<(), Fail> {
         "cancel-early" => replay_case::<EarlyCancel>(case, &check_cancel_early),
         "bare-server" => replay_case::<BareCase>(case, &check_bare_server),
         "shared-registry" => replay_case::<bool>(case, &check_shared_registry),
+        "half-dead" => replay_case::<bool>(case, &check_half_dead),
         "accept-loop" => replay_case::<LoopCase>(case, &check_accept_loop),
         _ => Err(Fail::new("replay-unknown-sub", sub.to_string())),
     }
